@@ -173,6 +173,12 @@ class _Quantifier(_UnaryOperator):
         for indices in grouped:
             grounding = tuple(df.iloc[indices[0], :].tolist()[:-1])
             ib = bounds[indices].permute([1, 0])[None, :, :]
+            if grounding not in self.grounding_table:
+                self._add_grounding(grounding)
+                self._add_neuron(len(indices))
+                self.neuron.bounds_table = torch.vstack(
+                    [n.get_data() for n in self.neurons]
+                )
             neuron_id = self.grounding_table[grounding]
             neuron = self.neurons[neuron_id]
 
